@@ -19,9 +19,12 @@
 #include <string.h>
 #include <math.h>
 #include <float.h>
+#include <stdlib.h>
+
+static uint64_t wk;             /* basic blocks of library code the last keyed operation executed (work variant only) */
 
 enum { O_RESIZE = 1, O_INSERT, O_FIND, O_ERASE, O_ERASE_NONMEMBER, O_REHASH, O_SHRINK, O_SWAP,
-       O_FOREACH, O_FOREACH_CONST, O_CLEAR, O_RANGE };
+       O_FOREACH, O_FOREACH_CONST, O_CLEAR, O_RANGE, O_SCAN };
 
 static const char *x_opname(int k)
 {
@@ -29,7 +32,7 @@ static const char *x_opname(int k)
     case O_RESIZE: return "resize"; case O_INSERT: return "insert"; case O_FIND: return "find";
     case O_ERASE: return "erase"; case O_ERASE_NONMEMBER: return "erase_nonmember"; case O_REHASH: return "rehash";
     case O_SHRINK: return "shrink_to_fit"; case O_SWAP: return "swap"; case O_FOREACH: return "foreach";
-    case O_FOREACH_CONST: return "foreach_const"; case O_CLEAR: return "clear"; case O_RANGE: return "range_sample";
+    case O_FOREACH_CONST: return "foreach_const"; case O_CLEAR: return "clear"; case O_RANGE: return "range_sample"; case O_SCAN: return "range_scan";
     }
     return "?";
 }
@@ -69,7 +72,11 @@ struct mtab {
     int kind;                   /* node member the table object is declared over (moves with swap) */
     uint64_t budget;            /* C19: keyed ops allowed until the rehash must have finished */
     uint64_t keyed;             /* keyed ops since the last resize call */
+    uint64_t work_sum, work_ops, work_n; unsigned work_l;   /* work variant: since the last resize call */
 };
+#define WORK_C0 100
+#define WORK_C1 80
+#define WORK_C2 12
 
 static struct cstl_hash tb[NTAB];
 static struct mtab mt[NTAB];
@@ -175,8 +182,10 @@ static const char *ctx_of(int t)
     return "settled";
 }
 
+/* in the allocation-failure enumeration every misbehaviour after the first injected failure is a C16 violation
+ * ("still holds exactly what it held before, remains fully usable"), whichever oracle notices it */
 #define VIOLP(prop, oracle, ...) do { char _k[128]; \
-        snprintf(_k, sizeof _k, "%s/%s/%s/%s", prop, oracle, x_opname(g_run.opkind), g_cur_ctx); \
+        snprintf(_k, sizeof _k, "%s/%s/%s/%s", (mode_g == 16 && g_hs.fired) ? "C16" : prop, oracle, x_opname(g_run.opkind), g_cur_ctx); \
         sim_violation(_k, __VA_ARGS__); } while (0)
 #define VIOL(oracle, ...) VIOLP(g_cur_prop, oracle, __VA_ARGS__)
 
@@ -476,6 +485,30 @@ static void c19_after_keyed(int t, unsigned c, int was_settled)
     struct hcall first;
     unsigned pc, bound, l = 0; int i;
     if (m->builtin) return;
+#ifdef SIM_WORK
+    /* amortised work while a rehash is pending: the operations since the resize may together have executed what their
+     * own chains cost plus one pass over the buckets in force (the sweep skips each already-clean bucket once) */
+    if (!was_settled) {
+        unsigned lw = 0;
+        for (i = 0; i < 3; i++) if (m->hist[i].n) { unsigned x = max_chain(t, m->hist[i]); if (x > lw) lw = x; }
+        if (lw > m->work_l) m->work_l = lw;
+        m->work_sum += wk; m->work_ops++;
+        {
+            uint64_t allow = m->work_ops * (WORK_C0 + WORK_C1 * (uint64_t)(m->work_l + 1)) + WORK_C2 * m->work_n;
+            if (getenv("SIM_WORK_DEBUG") && m->work_n >= 64) {
+                char nm[64]; uint64_t own = m->work_ops * (WORK_C0 + WORK_C1 * (uint64_t)(m->work_l + 1));
+                uint64_t per = m->work_sum > own ? (m->work_sum - own) / m->work_n : 0;
+                snprintf(nm, sizeof nm, "work_skip_per_bucket_%s", per < 2 ? "lt2" : per < 5 ? "lt5" : per < 10 ? "lt10" : per < 30 ? "lt30" : per < 100 ? "lt100" : "ge100"); probe_dyn(nm);
+                per = wk / (m->work_l + 1);
+                snprintf(nm, sizeof nm, "work_op_per_chain_%s", per < 20 ? "lt20" : per < 40 ? "lt40" : per < 80 ? "lt80" : per < 160 ? "lt160" : per < 400 ? "lt400" : "ge400"); probe_dyn(nm);
+            }
+            if (m->work_sum > allow)
+                VIOLP("C19", "amortised_work", "%llu keyed operations since the resize executed %llu basic blocks of library code; chains of at most %u elements and one pass over %llu buckets account for %llu",
+                      (unsigned long long)m->work_ops, (unsigned long long)m->work_sum, m->work_l, (unsigned long long)m->work_n, (unsigned long long)allow);
+        }
+        PROBE("c19_work_metered");
+    }
+#endif
     m->keyed++;
     /* no single operation does whole-table work */
     for (i = 0; i < 3; i++) if (m->hist[i].n) { unsigned x = max_chain(t, m->hist[i]); if (x > l) l = x; }
@@ -605,7 +638,7 @@ static void x_once(const plan_t *p)
         t = (int)(o->a[0] % (uint64_t)ntab);
         m = &mt[t];
         /* a table is not used between init/clear and a successful resize */
-        if (!m->inited && kind != O_RESIZE && kind != O_SWAP && kind != O_RANGE) kind = O_RESIZE;
+        if (!m->inited && kind != O_RESIZE && kind != O_SWAP && kind != O_RANGE && kind != O_SCAN) kind = O_RESIZE;
         g_run.step = k; g_run.opkind = kind; g_run.steps++;
         g_cur_prop = prop_of(t, kind); g_cur_ctx = ctx_of(t);
         was_settled = m->settled;
@@ -674,6 +707,7 @@ static void x_once(const plan_t *p)
                     /* the count of keyed operations restarts at every resize call */
                     m->budget = inforce > outstanding ? inforce : outstanding;
                     m->keyed = 0;
+                    m->work_sum = 0; m->work_ops = 0; m->work_l = 0; m->work_n = m->budget;
                 }
                 if (m->builtin && ng.fn != F_NULL) {
                     /* leaving the library's built-in function: its consultations cannot be counted, so "pending"
@@ -708,7 +742,7 @@ static void x_once(const plan_t *p)
             e = new_elem();
             e->nk = m->kind;
             TRY(cstl_hash_insert(&tb[t], key, e));
-            c = ncalls;
+            c = ncalls; wk = g_work - g_work_at_try;
             if (c17_after(t, "insert")) return;
             if (g_aborted) VIOL(g_aborted == 2 ? "assert" : "abort", "insert aborted");
             check_m0(t);
@@ -727,7 +761,7 @@ static void x_once(const plan_t *p)
             noffered = 0; accept_exact = NULL;
             accept_at = vmode == 1 ? 1 + (int)((o->a[3] >> 20) % 4) : 0;
             TRY(ret = cstl_hash_find(&tb[t], key, vmode == 0 ? NULL : find_visit, NULL));
-            c = ncalls;
+            c = ncalls; wk = g_work - g_work_at_try;
             if (c17_after(t, "find")) return;
             if (g_aborted) VIOL(g_aborted == 2 ? "assert" : "abort", "find aborted");
             check_m0(t);
@@ -762,7 +796,7 @@ static void x_once(const plan_t *p)
             idx = (int)(o->a[3] % (uint64_t)m->nlive);
             e = m->live[idx];
             TRY(cstl_hash_erase(&tb[t], e));
-            c = ncalls;
+            c = ncalls; wk = g_work - g_work_at_try;
             if (c17_after(t, "erase")) return;
             if (g_aborted) VIOL(g_aborted == 2 ? "assert" : "abort", "erase aborted");
             check_m0(t);
@@ -785,7 +819,7 @@ static void x_once(const plan_t *p)
                 PROBE("erase_never_inserted");
             }
             TRY(cstl_hash_erase(&tb[t], e));
-            c = ncalls;
+            c = ncalls; wk = g_work - g_work_at_try;
             if (c17_after(t, "erase")) return;
             if (g_aborted) VIOL(g_aborted == 2 ? "assert" : "abort", "erase of a non-member aborted");
             check_m0(t);
@@ -936,6 +970,33 @@ static void x_once(const plan_t *p)
             EVT("range", 0, 0, 0);
             break;
         }
+        case O_SCAN: {
+            /* C17 range clause over a complete slice of the 32-bit keys: 2^24 consecutive keys (slice a[1] of 256; the
+             * batch's run index walks the slices, so 256 consecutive runs cover every key below 2^32) against a small
+             * and a large table size, plus the same slice shifted to 2^32.. and to the top of the key space */
+            static const uint64_t ms[] = { 1000, 1, 2, 3, 7, 64, 65536, (1ull << 20) + 7, (1ull << 24) - 1, (1ull << 24) + 1, (1ull << 25) + 3, 1ull << 31,
+                                           (1ull << 32) + 1, 1ull << 40, UINT64_MAX, 12 };
+            uint64_t lo = (o->a[1] % 256) << 24, hi = lo + (1ull << 24), kk;
+            size_t m1 = (size_t)ms[o->a[2] % 16], m2 = (size_t)ms[(o->a[2] + 7) % 16];
+            g_cur_prop = "C17"; g_cur_ctx = "range-scan";
+            g_inlib = 1;
+            for (kk = lo; kk < hi; kk++) {
+                size_t r1 = cstl_hash_mul((size_t)kk, m1), r2 = cstl_hash_mul((size_t)kk, m2);
+                if (r1 >= m1 || r2 >= m2) { g_inlib = 0; VIOLP("C17", "mul_range", "cstl_hash_mul(%llu, %zu) = %zu", (unsigned long long)kk, r1 >= m1 ? m1 : m2, r1 >= m1 ? r1 : r2); }
+            }
+            for (kk = lo; kk < hi; kk += 16) {
+                uint64_t k2 = kk + (1ull << 32) * (1 + o->a[3] % 1000), k3 = UINT64_MAX - kk;
+                size_t r1 = cstl_hash_mul((size_t)k2, m1), r2 = cstl_hash_mul((size_t)k3, m2), r3 = cstl_hash_div((size_t)kk, m1), r4 = cstl_hash_div((size_t)k3, m2);
+                if (r1 >= m1 || r2 >= m2) { g_inlib = 0; VIOLP("C17", "mul_range", "cstl_hash_mul(%llu, %zu) = %zu", (unsigned long long)(r1 >= m1 ? k2 : k3), r1 >= m1 ? m1 : m2, r1 >= m1 ? r1 : r2); }
+                if (r3 >= m1 || r4 >= m2) { g_inlib = 0; VIOLP("C17", "div_range", "cstl_hash_div(%llu, %zu) = %zu", (unsigned long long)(r3 >= m1 ? kk : k3), r3 >= m1 ? m1 : m2, r3 >= m1 ? r3 : r4); }
+            }
+            g_inlib = 0;
+            PROBE_N("c17_range_scan_keys", (uint64_t)1 << 24);
+            { char nm[40]; snprintf(nm, sizeof nm, "c17_scan_slices_%u-%u", (unsigned)(o->a[1] % 256) / 32 * 32, (unsigned)(o->a[1] % 256) / 32 * 32 + 31); probe_dyn(nm); }
+            EVT("scan", o->a[1] % 256, m1, m2);
+            g_run.nontrivial = 1;
+            break;
+        }
         default: EVT("skip", 0, 0, 0);
         }
 
@@ -996,6 +1057,14 @@ static void x_gen(prng_t *r, int mode, plan_t *p)
     uint64_t cur[2] = { 0, 0 };
 
     if (mode == 16) budget = 10 + (int)prng_below(r, 30);
+    if (mode == 117) {
+        /* the range-scan batch: run i scans slice i mod 256 of the 32-bit keys; the table sizes change every 256 runs */
+        op_t *o;
+        p->cfg[CF_NT] = 1; p->cfg[CF_KEYS] = 2; p->cfg[CF_JUNK] = 1 + prng_below(r, 254); p->cfg[CF_MAXE] = 4;
+        o = plan_add(p, O_SCAN);
+        o->a[1] = g_gen_index % 256; o->a[2] = (g_gen_index / 256) % 16; o->a[3] = prng_next(r) >> 8;
+        return;
+    }
     p->cfg[CF_NT] = (uint64_t)nt;
     p->cfg[CF_KEYS] = small ? 1 + prng_below(r, 4) : 2 + prng_below(r, 39);
     p->cfg[CF_JUNK] = 1 + prng_below(r, 254);
